@@ -373,31 +373,39 @@ func sortedSetBody(s *simrt.Sim) {
 			}
 		}
 	}
+	// with that overlap all symptoms are one finding (the unlocked weight callback of addSorted); without it every
+	// symptom keeps its own signature
+	bad := func(sym string) {
+		if suffix != "" {
+			sym = "order-or-ends-wrong"
+		}
+		s.Fail("sorted-set", sym+suffix, "%s", state)
+	}
 	if !eqInts(sortedInts(asc), members) {
-		s.Fail("sorted-set", "ascending-lists-other-elements-than-the-set"+suffix, "%s", state)
+		bad("ascending-lists-other-elements-than-the-set")
 	}
 	for i := range asc {
 		if len(desc) != len(asc) || desc[len(asc)-1-i] != asc[i] {
-			s.Fail("sorted-set", "descending-not-reverse-of-ascending"+suffix, "%s", state)
+			bad("descending-not-reverse-of-ascending")
 		}
 	}
 	for i := 1; i < len(asc); i++ {
 		if wOf(asc[i-1]) > wOf(asc[i]) {
-			s.Fail("sorted-set", "not-ordered-by-current-weight"+suffix, "%s", state)
+			bad("not-ordered-by-current-weight")
 		}
 	}
 	h, l := ss.HeaviestElement().Get(), ss.LightestElement().Get()
 	if len(asc) == 0 {
 		if h != 0 || l != 0 {
-			s.Fail("sorted-set", "heaviest-lightest-set-on-empty-set"+suffix, "%s", state)
+			bad("heaviest-lightest-set-on-empty-set")
 		}
 	} else {
 		// ties: any element of maximal / minimal weight is accepted
 		if !hasInt(members, h) || wOf(h) != wOf(asc[len(asc)-1]) {
-			s.Fail("sorted-set", "heaviest-element-wrong"+suffix, "%s", state)
+			bad("heaviest-element-wrong")
 		}
 		if !hasInt(members, l) || wOf(l) != wOf(asc[0]) {
-			s.Fail("sorted-set", "lightest-element-wrong"+suffix, "%s", state)
+			bad("lightest-element-wrong")
 		}
 	}
 }
